@@ -1904,3 +1904,53 @@ def tall_ladder_rows_findings(seed, ntemps=140, iterations=3):
                             'not %d probabilities' % (ntemps, r, ntemps - 1), {'detail': {'ntemps': ntemps, 'row': r}}))
                 break
     return out, stats
+
+
+def blob_number_findings(seed):
+    """C08 with blobs whose numbers are not small floats: 64-bit integer labels / nanosecond time stamps
+    (above 2**53, not representable as a double), numpy integers, booleans.  The blob recorded with a position
+    -- through every access path -- must be the model's output at that position, exactly."""
+    from epsie.samplers import MetropolisHastingsSampler, ParallelTemperedSampler
+    from epsie.proposals import Normal
+    rng = random.Random(seed * 1237 + 3)
+    out = []
+    stats = {'records_checked': 0}
+    big = 2 ** 60 + 1
+
+    def blob_of(x):
+        k = int(math.floor(x * 64))
+        return {'stamp': big + 2 * k + 1, 'label': numpy.int64(2 ** 55 + k), 'flag': bool(k % 2)}
+
+    def model(x):
+        return -math.floor(x * x * 8) / 16.0, 0.0, blob_of(x)
+    for kind in ('mh', 'pt'):
+        if kind == 'mh':
+            smp = MetropolisHastingsSampler(['x'], model, 2, proposals=[Normal(['x'])], seed=rng.randrange(1, 10 ** 6))
+            smp.start_position = {'x': numpy.array([0.3, -0.4])}
+        else:
+            smp = ParallelTemperedSampler(['x'], model, 2, betas=numpy.array([1.0, 0.5]), swap_interval=1,
+                                          proposals=[Normal(['x'])], seed=rng.randrange(1, 10 ** 6))
+            smp.start_position = {'x': numpy.array([[0.3, -0.4], [0.1, 0.2]])}
+        smp.run(6)
+        pos, blobs = smp.positions, smp.blobs
+        xs = numpy.asarray(pos['x']).ravel()
+        for name in ('stamp', 'label', 'flag'):
+            got = numpy.asarray(blobs[name]).ravel()
+            for x, g in zip(xs, got):
+                stats['records_checked'] += 1
+                want = blob_of(float(x))[name]
+                if int(g) != int(want):
+                    out.append(('blob-number-not-the-models-output:' + name,
+                                '%s sampler: the recorded blob entry %r at position %r is %r, the model returns %r there'
+                                % (kind, name, float(x), g.item() if hasattr(g, 'item') else g, int(want)),
+                                {'detail': {'kind': kind, 'entry': name, 'x': float(x)}}))
+                    return out, stats
+        cb = smp.current_blobs
+        cp = smp.current_positions
+        for x, g in zip(numpy.asarray(cp['x']).ravel(), numpy.asarray(cb['stamp']).ravel()):
+            stats['records_checked'] += 1
+            if int(g) != blob_of(float(x))['stamp']:
+                out.append(('blob-number-not-the-models-output:current', '%s sampler: current_blobs[stamp] %r at %r, model %r'
+                            % (kind, g, float(x), blob_of(float(x))['stamp']), {'detail': {'kind': kind}}))
+                return out, stats
+    return out, stats
